@@ -22,6 +22,7 @@ import (
 
 	"verif/eng"
 	"verif/mon"
+	"verif/ops"
 )
 
 type knownFinding struct {
@@ -95,6 +96,7 @@ func runChild(jobFile string) {
 		os.Exit(3)
 	}
 	res := e(j)
+	ops.TraceFlush()
 	if err := res.Write(j.Out); err != nil {
 		fmt.Fprintln(os.Stderr, err)
 		os.Exit(3)
